@@ -31,7 +31,7 @@ ASSUMPTIONS = ["repeatability is only claimed (and checked) for single-process r
                "uniqueness of samples is checked on the Forward payoff (strictly monotone, continuous): bit-equal stored values mean shared variates",
                "each run is a subprocess with a 300 s time-out; a time-out is inconclusive"]
 REQUIRED_COUNTERS = ["fresh_interpreter_repeats", "in_process_repeats", "seed_audits", "seedings_observed", "tagged_rows_consumed",
-                     "multi_worker_runs", "duplicate_value_scans", "seedings_observed_across_processes", "uniform_variates_observed", "same_engine_repeats"]
+                     "multi_worker_runs", "duplicate_value_scans", "seedings_observed_across_processes", "uniform_variates_observed", "same_engine_repeats", "normal_variates_observed"]
 MIN_NONTRIVIAL = {"quick": 12, "thorough": 60}
 SHARD_TIMEOUT = {"quick": 1500, "thorough": 7200}
 
@@ -86,6 +86,11 @@ def gen_cases(tier, seed):
             cases.append({"monitor": "seed-audit", "run": dict(base)})
             if not st:
                 cases.append({"monitor": "exactly-once", "run": dict(base)})
+    # jump-time modes through a worker pool (nothing pre-drawn: the uniform and normal variates drawn by the workers are audited)
+    for e in ("standard", "mlmc-fixed", "mlmc"):
+        cases.append({"monitor": "exactly-once", "run": {"engine": e, "process": "chain", "paths": 24, "stochastic_dates": True, "seed": None, "rmse": 0.6, "workers": 2}})
+        if thorough:
+            cases.append({"monitor": "exactly-once", "run": {"engine": e, "process": "chain", "paths": 37, "stochastic_dates": True, "seed": 5 + seed, "rmse": 0.6, "workers": 4}})
     # copula chain (standard engine) and copula coupling (multilevel engine): pre-drawn rows of vector-valued increments
     for k2, (eng, st) in enumerate((("standard", False), ("standard", True), ("mlmc-fixed", False), ("mlmc", False)) if thorough else (("standard", False), ("mlmc", False))):
         base = {"engine": eng, "process": "copula", "paths": 24 if eng == "standard" else 16, "stochastic_dates": st, "seed": 777 + seed + k2, "rmse": 0.8}
@@ -227,7 +232,19 @@ def run_case(case, R):
             R.hit("multi_worker_runs")
         seedings = [e for e in events if e["kind"] == "seeding"]
         uniforms = [e for e in events if e["kind"] == "uniform"]
-        events = [e for e in events if e["kind"] not in ("seeding", "uniform")]
+        normals = [e for e in events if e["kind"] == "normal"]
+        _state_audit(R, events, tag, run, wit)
+        events = [e for e in events if e["kind"] not in ("seeding", "uniform", "normal", "state", "predraw")]
+        mode_u = "single-process" if run["workers"] == 1 else "worker-pool"
+        if run.get("stochastic_dates"):
+            # jump-time modes: nothing is pre-drawn, every normal variate drawn is consumed by the path that draws it
+            drawn = Counter(v for e in normals for v in e["vals"])
+            R.hit("normal_variates_observed", sum(drawn.values()))
+            twice_n = [v for v, c in drawn.items() if c > 1]
+            if twice_n:
+                R.violation(f"normal-variates-drawn-more-than-once-{mode_u}-{run['engine']}", f"{tag}, {run['workers']} process(es): {len(twice_n)} of the "
+                            f"{len(drawn)} distinct normal variates drawn during the run were drawn more than once (e.g. {float.fromhex(twice_n[0])!r}, "
+                            f"{drawn[twice_n[0]]} times; drawn by {len({e['pid'] for e in normals})} process(es))", wit)
         handed = Counter(v for e in uniforms for v in e["vals"])
         R.hit("uniform_variates_observed", sum(handed.values()))
         twice = [v for v, c in handed.items() if c > 1]
@@ -267,6 +284,33 @@ def _dups(R, fine_levels, tag, run, wit):
             R.violation(f"bit-equal-samples-{mode}-{run['engine']}", f"{tag}, {run['workers']} process(es), level {l}: {len(vals)} stored samples contain only "
                         f"{len(cnt)} distinct values (e.g. {dup[0]!r} appears {cnt[dup[0]]} times)", wit)
             return
+
+
+def _state_audit(R, events, tag, run, wit):
+    """numpy.random.set_state putting the generator of a process back into a state recorded earlier in the run (by get_state or by a
+    seeding) after the generator has moved on: if pre-drawn rows were drawn in between and are consumed by samples, the variates drawn
+    after the restore come from the stream that already produced those rows"""
+    by_pid = {}
+    for i, e in enumerate(events):
+        by_pid.setdefault(e["pid"], []).append((i, e))
+    consumed_calls = {".".join(str(e.get("uid")).split(".")[:2]) for e in events if e["kind"] in ("brownian", "poisson") and e.get("uid")}
+    for pid, evs in by_pid.items():
+        known = {}          # digest -> position of the event that recorded it
+        for pos, (i, e) in enumerate(evs):
+            if e["kind"] == "state" and e["op"] == "get":
+                known.setdefault(e["after"], pos)
+            elif e["kind"] == "seeding" and e.get("gen") == "numpy":
+                known.setdefault(e["after"], pos)
+            elif e["kind"] == "state" and e["op"] == "set":
+                R.hit("generator_state_restores_observed")
+                if e["after"] in known and e["before"] != e["after"]:
+                    between = [x for _, x in evs[known[e["after"]]:pos] if x["kind"] == "predraw" and x["n"] > 0]
+                    used = [x for x in between if x["call"] in consumed_calls]
+                    if used:
+                        R.violation(f"generator-restored-to-a-state-that-already-produced-consumed-variates-{run['engine']}", f"{tag}: numpy.random.set_state put the "
+                                    f"generator of process {pid} back into a state recorded earlier in the run; {sum(x['n'] for x in used)} pre-drawn row(s) drawn in "
+                                    "between are consumed by samples, and the variates drawn after the restore repeat the stream that produced them", wit)
+                        return
 
 
 def _cross_process_seed_audit(R, seedings, tag, run, wit):
